@@ -265,3 +265,32 @@ def named_exists(ip, name: str, args: list, n, pred_fn):
                 p.assume(P(*args, i + 1) == z3.Or(P(*args, i), pred_fn(i)))
         s.folds.append(st)
     return lambda i: P(*args, i if not isinstance(i, int) else z3.IntVal(i))
+
+
+def named_maxfold(ip, name: str, args: list, n, val_fn, lower=0):
+    """Max-prefix fold  M(i) := max(lower, max_{k<i} val(k))  with step instances at loop indices and the bound
+    val(k) <= M(n) at every index term (lean: maxfold_ge), plus attainment by a Skolem index (lean: maxfold_attained)."""
+    s = seqs(ip)
+    p = ip.path
+    sorts = [a.sort() for a in args] + [I, I]
+    Mx = fn(name, *sorts)
+    key = f"maxfold:{name}:{[str(a) for a in args]}:{n}"
+    if key not in s.done:
+        s.done.add(key)
+        p.assume(Mx(*args, z3.IntVal(0)) == lower)
+        sk = sym.fresh("sk_" + name, I)
+        add_index(ip, sk)
+        p.assume(z3.Or(Mx(*args, n) == lower, z3.And(sk >= 0, sk < n, Mx(*args, n) == val_fn(sk))))
+        p.assume(Mx(*args, n) >= lower)
+
+        def pw(k):
+            if _once(ip, f"{key}:ge:{k}"):
+                p.assume(z3.Implies(z3.And(k >= 0, k < n), val_fn(k) <= Mx(*args, n)))
+        s.pointwise.append(pw)
+
+        def st(i):
+            if _once(ip, f"{key}:step:{i}"):
+                p.assume(Mx(*args, i + 1) == sym.zmax(Mx(*args, i), val_fn(i)))
+                p.assume(Mx(*args, i) >= lower)
+        s.folds.append(st)
+    return lambda i: Mx(*args, i if not isinstance(i, int) else z3.IntVal(i))
